@@ -51,6 +51,7 @@ Section Decl.
   Notation next_is := (StParser.next_is tk cl).
   Notation ident := (StParser.ident tk cl txt).
   Notation leaf_of := (StParser.leaf_of tk txt num).
+  Notation typed_leaf := (StParser.typed_leaf tk cl txt num).
 
   Definition D (A : Type) := dres (A * list tk).
 
@@ -71,13 +72,34 @@ Section Decl.
         match cl t with
         | CConst k => Some (leaf_of k t, r)
         | COp BAdd => match r with
-                      | d :: r' => match cl d with CConst CkInt => Some (LfInt false (num d), r') | _ => None end
+                      | d :: r' => match cl d with
+                                   | CConst CkInt => Some (LfInt false (num d), r')
+                                   | c => if is_real_c c then Some (LfReal None (Some false) (txt d), r') else None
+                                   end
                       | [] => None
                       end
         | CMinus => match r with
-                    | d :: r' => match cl d with CConst CkInt => Some (LfInt true (num d), r') | _ => None end
+                    | d :: r' => match cl d with
+                                 | CConst CkInt => Some (LfInt true (num d), r')
+                                 | c => if is_real_c c then Some (LfReal None (Some true) (txt d), r') else None
+                                 end
                     | [] => None
                     end
+        | CTyKw k => match r with
+                     | h :: v :: r' =>
+                         match cl h with
+                         | CHash =>
+                             match sign_of (cl v) with
+                             | Some b => match r' with
+                                         | d :: r'' => match typed_leaf k (Some b) d with Some l => Some (l, r'') | None => None end
+                                         | [] => None
+                                         end
+                             | None => match typed_leaf k None v with Some l => Some (l, r') | None => None end
+                             end
+                         | _ => None
+                         end
+                     | _ => None
+                     end
         | CBoolT => match r with
                     | h :: v :: r' =>
                         match cl h, cl v with
@@ -129,7 +151,7 @@ Section Decl.
     | DFail => DFail | DScope => DScope | DFuel => DFuel
     end.
 
-  Definition is_type c := match c with CTyKw | CBoolT => true | _ => false end.
+  Definition is_type c := match c with CTyKw _ | CBoolT => true | _ => false end.
   Definition next_lp (ts : list tk) : bool := match next_is is_lp ts with Some _ => true | None => false end.
 
   (* simple_or_enumerated_or_subrange_ambiguous_struct_spec_init, ts at the type *)
